@@ -34,12 +34,12 @@ CHECKS = {
                 text="Each navigation attribute is proved, from its real body in both mixins, to equal its definition over the "
                      "parent/children relation (first-order postconditions over the ghost forest theory: path/ancestors/root/"
                      "depth/siblings/is_leaf/is_root; height against the recursive HEIGHT; descendants/leaves/size against the "
-                     "proved PreOrderIter contract). util.* helpers: see level_note.",
+                     "proved PreOrderIter contract); util.commonancestors (longest common prefix, loop invariant over zip(*ancestors)) and "
+                     "util.leftsibling/rightsibling (neighbour at idx-1/idx+1 or None) from their real bodies.",
                 tech="contract-based deductive verification: AST->SMT VCs from /repo source, sidecar contracts, z3/cvc5",
                 note="Assumed: existence of the ghost functions (ancestor relation, depth, index, HEIGHT, ancestor-at-depth) in a "
                      "finite forest; bridge 'HEIGHT = longest downward path' and 'PRE = all nodes below' are Lean/bounded bridges "
-                     "(see evidence.lemmas). util.commonancestors/leftsibling/rightsibling are covered by the bounded stand-in only "
-                     "until their contracts are added (labelled in the evidence)."),
+                     "(see evidence.lemmas). util.leftsibling/rightsibling are verified on the tree repaired by fix: commit f8175df."),
     "C05": dict(cat="proof", design="3/C05",
                 text="Each iterator's generator body (_iter, __next, _get_grandchildren) and the AbstractIter protocol (__init__, "
                      "__init, __next__, helpers) are proved equal to recursive specification functions (PRE, POSTF, LEVEL, LEVELG, "
